@@ -43,6 +43,45 @@ class MThread:
         return '<%s#%d %s %s due=%.3f>' % (self.label, self.seq, self.state, self.block and self.block[0], self.due)
 
 
+class _Worker:
+    """A reusable OS thread that executes one managed activity at a time (thread creation is the dominant cost of an
+    execution otherwise). A worker is busy from the moment an activity starts until it finishes (it stays parked inside
+    yield_blocked while the activity is blocked)."""
+    idle = []
+
+    def __init__(self):
+        self.sem = _th.Semaphore(0)
+        self.job = None
+        self.thread = _th.Thread(target=self.loop, daemon=True, name='managed-worker')
+        self.thread.start()
+
+    @classmethod
+    def get(cls):
+        return cls.idle.pop() if cls.idle else cls()
+
+    def loop(self):
+        while True:
+            self.sem.acquire()
+            rt, t = self.job
+            self.job = None
+            try:
+                if not rt.poison:
+                    if rt.trace_fn is not None:
+                        sys.settrace(rt.trace_fn)
+                    t.fn()
+            except Poison:
+                pass
+            except BaseException as e:  # noqa
+                t.exc = e
+                rt.errors.append((t.label, repr(e), traceback.format_exc()))
+            finally:
+                sys.settrace(None)
+                t.state = 'done'
+                t.fn = None
+                _Worker.idle.append(self)
+                rt.explorer_sem.release()
+
+
 class Runtime:
     BATON_TIMEOUT = 60.0
 
@@ -163,27 +202,10 @@ class Runtime:
             if t.pool in self.single:
                 self.pool_busy[t.pool] = t
             t.state = 'ready'
-
-            def body():
-                t.sem.acquire()
-                try:
-                    if self.poison:
-                        return
-                    if self.trace_fn is not None:
-                        sys.settrace(self.trace_fn)
-                    t.fn()
-                except Poison:
-                    pass
-                except BaseException as e:  # noqa
-                    t.exc = e
-                    self.errors.append((t.label, repr(e), traceback.format_exc()))
-                finally:
-                    sys.settrace(None)
-                    t.state = 'done'
-                    self.explorer_sem.release()
-
-            t.real = _th.Thread(target=body, daemon=True, name='managed:%s' % t.label)
-            t.real.start()
+            w = _Worker.get()
+            t.real = w.thread
+            t.sem = w.sem
+            w.job = (self, t)
         else:
             t.state = 'ready'
         t.sem.release()
@@ -209,8 +231,6 @@ class Runtime:
             if not self.explorer_sem.acquire(timeout=self.BATON_TIMEOUT):
                 raise HarnessError('teardown: %r did not terminate' % t)
         self.current = None
-        for t in parked:
-            t.real.join(timeout=5)
         self.threads = []
 
 
